@@ -209,6 +209,25 @@ def check_residue(toks):
     return out
 
 
+def check_separators(toks):
+    """A list/map/argument separator with nothing on one side: ', }', '{ ,', ', ,', ', )' ... (what an empty container
+    spliced into a template leaves behind) and a map entry without a value ('key: }' / 'key: ,')."""
+    out = []
+    for i, (k, t, p, _) in enumerate(toks):
+        if k != 'punct':
+            continue
+        nx = toks[i + 1] if i + 1 < len(toks) else None
+        if t == ',' and (nx is None or (nx[0] == 'punct' and nx[1] in (',', '}', ']', ')'))):
+            out.append(('dangling-separator', f'"," at {p} is followed by {nx[1] if nx else "the end"!r}', p))
+        elif t in ('{', '[', '(') and nx is not None and nx[0] == 'punct' and nx[1] == ',':
+            out.append(('dangling-separator', f'{t!r} at {p} is followed by ","', p))
+        elif t == ':' and nx is not None and nx[0] == 'punct' and nx[1] in (',', '}'):
+            pv = toks[i - 1] if i else None
+            if pv is not None and pv[0] in ('ident', 'kw', 'qident'):
+                out.append(('dangling-separator', f'map entry {pv[1]!r} at {pv[2]} has no value', p))
+    return out
+
+
 def check_params(toks, params):
     out = []
     have = set(params or ())
@@ -389,6 +408,7 @@ def check_statement(text, params=None):
     probs += bal
     res = check_residue(toks)
     probs += res
+    probs += check_separators(toks)
     probs += check_params(toks, params)
     if not bal:
         skip = set()
